@@ -83,7 +83,6 @@ Definition sstep (o : op) (P : apool) : apool * outcome :=
   | OAssign i j =>
       match aget P j with None => (P, Skipped) | Some a => a_on P i (fun _ => (a, Done)) end
   | OMoveAssign i j =>
-      if i =? j then (P, Skipped) else
       match aget P i, aget P j with
       | Some _, Some a => (aset (aset P j (Some (fst a, []))) i (Some a), Done)
       | _, _ => (P, Skipped)
@@ -99,6 +98,17 @@ Definition sstep (o : op) (P : apool) : apool * outcome :=
   | OPop i => a_on P i (fun a => a_try a (bl_pop (snd a)))
   | OErase i pos => a_on P i (fun a => a_try a (bl_erase (snd a) pos))
   | ODestroy i => if i <? length P then (aset P i None, Done) else (P, Skipped)
+  (* aliasing arguments: the value(s) named by the caller are those of the sequence BEFORE the operation *)
+  | OEmplaceAt i pos k =>
+      a_on P i (fun a => match nth_error (snd a) k with Some s => a_try a (bl_emplace (fst a) (snd a) pos s) | None => (a, Skipped) end)
+  | OEmplaceBackAt i k | OInsertAt i k | OPushBackAt i k =>
+      a_on P i (fun a => match nth_error (snd a) k with Some s => a_try a (bl_append (fst a) (snd a) s) | None => (a, Skipped) end)
+  | OInsertSelfRange i pos x y =>
+      a_on P i (fun a => if (x <=? y) && (y <=? length (snd a))
+                         then a_range a (bl_overwrite (fst a) (snd a) pos (firstn (y - x) (skipn x (snd a)))) else (a, Skipped))
+  | OPushBackSelfRange i x y =>
+      a_on P i (fun a => if (x <=? y) && (y <=? length (snd a))
+                         then a_range a (Some (bl_append_range (fst a) (snd a) (firstn (y - x) (skipn x (snd a))))) else (a, Skipped))
   end.
 
 Fixpoint srun (ops : list op) (P : apool) : apool * list outcome :=
